@@ -41,6 +41,10 @@ def guard_list(fi, prog, loop, az):
 
 def check(run):
     prog = run.prog
+    from . import common as _common
+    _common.fresh_hits(run, "C11")
+    # the canonical value of a URL / IP and the validators that decide whether a candidate is reported at all are C10's rules
+    _common.delegate(run, "C10", lambda rule, key: rule in ("R4-percent", "R2-validators") or key.endswith("parse_ip/value-is-compressed-form"), floor=9)
     nm = prog.mod("decoders.network")
     fm = prog.mod("decoders.filename")
     w = lambda m: f"{m.rel}:1"   # noqa: E731
